@@ -163,6 +163,43 @@ fn run(op: &str, a: &[String]) -> String {
 fn one<FF: Elem>(op: &str, g: &[Vec<String>]) -> Option<String> {
     let p = |i: usize| mk::<FF>(&g[i]);
     Some(match op {
+        // ---- sparse operands of large degree (specification-only in the oracle):
+        // sparse <which> | a c1 d1 | b c2 d2 :  (c1 X^a + d1) * (c2 X^b + d2)  by the strategy <which>; the result is printed
+        // sparsely as  <stored length after normalisation> <index>:<value> ...  (at most 8 non-zero coefficients)
+        "sparse" => {
+            let u = |i: usize, j: usize| g[i][j].parse::<u64>().unwrap();
+            let mkp = |i: usize| {
+                let a = u(i, 0) as usize;
+                let mut v = vec![FF::ZERO; a + 1];
+                v[0] = FF::parse(&[u(i, 2), 0, 0][..FF::W]);
+                v[a] = v[a] + FF::parse(&[u(i, 1), 0, 0][..FF::W]);
+                P::<FF>::new(v)
+            };
+            let (x, y) = (mkp(1), mkp(2));
+            let r = match g[0][0].as_str() {
+                "mul" => x * y,
+                "fast" => x.fast_multiply(&y),
+                "multiply" => x.multiply(&y),
+                "square" => x.square(),
+                "fastsq" => x.fast_square(),
+                "fastpow" => x.fast_pow(u(2, 0) as u32),
+                _ => return None,
+            };
+            let c = strip(r.coefficients());
+            let mut out = c.len().to_string();
+            let mut nz = 0;
+            for (i, e) in c.iter().enumerate() {
+                if *e != FF::ZERO {
+                    nz += 1;
+                    if nz > 8 {
+                        out.push_str(" MANY");
+                        break;
+                    }
+                    out.push_str(&format!(" {}:{}", i, e.show().replace(' ', ",")));
+                }
+            }
+            out
+        }
         // ---- multiplication family (C07)
         "mul" => showp(&(p(0) * p(1))),
         "naive" => showp(&p(0).naive_multiply(&p(1))),
